@@ -8,10 +8,10 @@ META = dict(
         quick="real BacktestingDispatcher on asyncio; 2x2, 3x2 and 2x3 (sources x events) with symbolic microsecond "
               "timestamps (per-source non-decreasing: the premise), a derived source fed by a handler, duplicate "
               "subscriptions, one front-running and one trailing catch-all handler, a solver-chosen handler profile "
-              "(7 patterns of 0..4 suspension points and raising handlers), handlers as coroutine functions / "
+              "(8 patterns of 0..4 suspension points and raising handlers), handlers as coroutine functions / "
               "functools.partial objects / callable instances / bound methods looked up afresh for the duplicate "
               "subscription / plain callables returning a Task (2x2), max_concurrent symbolic in 1..3",
-        thorough="adds 3x3 without suspension/raise and 2x4 with profiles, max_concurrent 1..4"),
+        thorough="adds 3x3 without suspension/raise (max_concurrent 1..4) and 2x4 with profiles (max_concurrent 1..2)"),
     stubs=["logging disabled (no log record is formatted on proxies)", "uuid.uuid4 deterministic"],
     assumptions=["every source yields events in non-decreasing time order (premise of the statement)",
                  "cross-source order among equal timestamps is not asserted (unspecified by the statement)"],
@@ -36,6 +36,6 @@ def jobs(tier):
         js += [
             Job("3x3 plain", "scenario", dict(props=["C12"], nsrc=3, nev=3, max_mc=4, susp=False, raising=False),
                 **dict(big, split=600)),
-            Job("2x4 full", "scenario", dict(props=["C12"], nsrc=2, nev=4, max_mc=3), **dict(big, split=600)),
+            Job("2x4 full", "scenario", dict(props=["C12"], nsrc=2, nev=4, max_mc=2), **dict(big, split=600)),
         ]
     return js
